@@ -201,6 +201,7 @@ class Unit:
                     item = X.normalise_vis(item)
                     if item:
                         item[0].ws = ''
+                    item = X.widen_item_vis(item, 'const')
                     out.tokens(item)
                     out.raw('', ('unit', ln))
                     info['extraction'].append({'item': 'const ' + nm, 'file': f, 'lines': '%d-%d' % (toks[k].line, toks[e - 1].line),
